@@ -8,6 +8,7 @@ with tempfile.TemporaryDirectory() as d:
     x = os.path.join(d, "j.xml")
     env = dict(os.environ)
     env.pop("INLINE_SNAPSHOT_VERIF", None)
+    env["PYTHONPATH"] = os.path.join(repo, "src")
     p = subprocess.run(["/venv/bin/python", "-m", "pytest", "-ra", "-q", "-p", "no:cacheprovider", "--timeout=900", "--continue-on-collection-errors", f"--junitxml={x}"], cwd=repo, env=env, capture_output=True, text=True)
     passed = set()
     for tc in ET.parse(x).getroot().iter("testcase"):
